@@ -148,9 +148,12 @@ func c06Scenario(r *sim.Run) {
 	finished := false
 	var prevClient *stClient
 	prevDialled := false
+	reloadedSincePrev := false
+	prevDialAddr := "" // what the station dialled for prevClient's connection
 	s.Spawn("director", func() {
 		for i := 0; i < nregs && !r.Failed(); i++ {
 			if i > 0 && tp.Prob("reload", 1, 4) {
+				reloadedSincePrev = true
 				// the operator reloads the configuration (SIGHUP -> ParseConfig -> OnReload) while
 				// the station is idle; from here on the new policy is the one in force
 				bi, ai, di = tp.Choose("blocklist", len(c06Blocklists)), tp.Choose("allowlist", len(c06Allowlists)), tp.Choose("domains", len(c06DomainPatterns))
@@ -222,10 +225,20 @@ func c06Scenario(r *sim.Run) {
 			// another covert address: whether the station takes the retry or ignores it as a repeat is
 			// not this property's question — what it dials is
 			retry := prevClient != nil && !prevDialled && tp.Prob("retry-same-secret", 1, 4)
+			rereg, firstAddr := false, prevDialAddr
 			if retry {
 				c = prevClient
 				class += "+retry"
 				r.Probe("retry_after_refusal")
+			} else if rereg = prevClient != nil && prevDialled && !reloadedSincePrev && tp.Prob("reregister-same-secret", 1, 4); rereg {
+				// the client whose registration was admitted (and used) registers again for the same
+				// session, later, with another covert address. Whether the station keeps the first
+				// address or takes the new one: what it dials must have passed the checks. (Not across
+				// a reload: the policy is evaluated as of admission time.)
+				c = prevClient
+				retry = true
+				class += "+reregister"
+				r.Probe("reregister_after_admission")
 			}
 			c.covert = covert
 			c.v6 = false
@@ -318,7 +331,10 @@ func c06Scenario(r *sim.Run) {
 					}
 				}
 			}
-			prevClient, prevDialled = c, len(dialled) > 0
+			prevClient, prevDialled, reloadedSincePrev, prevDialAddr = c, len(dialled) > 0, false, ""
+			if len(dialled) > 0 {
+				prevDialAddr = dialled[0]
+			}
 			if len(dialled) == 0 {
 				if wellFormed && permitted(wfAP.Addr()) && !hostBlocked && !retry {
 					r.Fail("C06/permitted-literal-rejected", "the well-formed, permitted covert %q was not accepted (no dial happened for a genuine connection)", covert)
@@ -355,7 +371,13 @@ func c06Scenario(r *sim.Run) {
 				r.Fail("C06/dialled-forbidden-address/"+class, "covert %q: the station dialled %s, which the configured policy forbids (blocklist %v, allowlist %v)", covert, d, o.covertBlock, o.covertAllow)
 				return
 			}
-			if hostBlocked {
+			// a re-registration that the station ignored: it dialled what it dialled for the first
+			// registration of that session, whose covert string was judged then
+			keptFirst := rereg && d == firstAddr
+			if keptFirst {
+				r.Probe("reregistration_ignored_first_covert_dialled")
+			}
+			if hostBlocked && !keptFirst {
 				r.Fail("C06/dialled-blocked-domain", "covert %q: its host matches a blocklisted domain pattern %v, yet the station dialled %s", covert, o.domainBlock, d)
 				return
 			}
